@@ -140,6 +140,14 @@ def scenarios(P):
             'defaults': [], 'conf': {}, 'enforcer_kw': {'overwrite': False},
             'probes': [('a', ['op']), ('a', ['adm'])],
         },
+        's12-empty-main-file-rewritten': {
+            # the main file holds NO rule at all, before and after it is
+            # rewritten; every rule lives in the policy directory
+            'old': {'policy.yaml': {}, 'd1/o.yaml': {'dr': '@'}},
+            'new': {'policy.yaml': {}},
+            'defaults': [], 'conf': {},
+            'probes': [('dr', [])],
+        },
         's5-alias-halves-swap': {
             'old': {'policy.yaml': {'a': 'rule:h1 and rule:h2',
                                     'h1': 'role:p', 'h2': 'role:q'}},
@@ -160,7 +168,8 @@ TIERS = {
                         's8-override-of-default-removed',
                         's9-dir-rule-beside-missing-default',
                         's10-dir-overrides-default-rule',
-                        's11-no-overwrite-dir-edit'],
+                        's11-no-overwrite-dir-edit',
+                        's12-empty-main-file-rewritten'],
                   bound=2, reduced=True, opcode=False,
                   probes={'s1-main-edit-dir-override': [2, 1],
                           's1b-main-edit-dir-touched': [1],
@@ -172,7 +181,8 @@ TIERS = {
                           's8-override-of-default-removed': [1],
                           's9-dir-rule-beside-missing-default': [2],
                           's10-dir-overrides-default-rule': [1, 1],
-                          's11-no-overwrite-dir-edit': [1, 1]}),
+                          's11-no-overwrite-dir-edit': [1, 1],
+                          's12-empty-main-file-rewritten': [1]}),
     'thorough': dict(scen=None, bound=2, reduced=False, opcode=True,
                      probes=None),
 }
